@@ -25,7 +25,7 @@ ASSUMPTIONS = ["file-system-layer calls succeed and are atomic (crash points are
                "the property clauses about TS packets are evaluated when the fed data are whole 188-byte packets and a 376-byte "
                "PAT/PMT was fed first (as mpegts does); other inputs are compared model == implementation only"]
 FULL_OUTPUT = True
-TIMEOUT = 150
+TIMEOUT = 900
 
 ROOT = "/v"
 NOW0 = 1700000000000
